@@ -28,8 +28,12 @@ def run(tier, seed):
     rep.add_unit_results(util.run_jobs(jobs))
     rep.not_covered += ['directed_percolate_network / get_infected_nodes bodies (delegation binding only, see C17)',
                         'fast_nonMarkov_SIR main body and fast_SIR: see C01 / C04 (same contracts)']
+    from ..replay import sim_native
+    rep.bounded_is_supplementary = True
+    rep.add(util.native_ob('native:first-passage-percolation-oracle', 'EoN/simulation.py:fast_nonMarkov_SIR / percolation builders / get_infected_nodes', sim_native.c11_native,
+                           '120 random graphs <= 7 nodes with delays/durations in {0, .5, 1, 2, inf} (ties), string labels, initial recovered, tmin != 0, finite tmax: infection/recovery times vs Dijkstra, infectors, percolated digraph; get_infected_nodes at gamma=0 on 40 graphs'))
     rep.assumptions += [
         'M (cited): min-first processing of events under L1 (no lost relaxation), L2 (no spurious event), L3 (infect iff susceptible, at the event time, recovery = time + duration) infects v at tmin + shortest-path distance in the kept-edge digraph, infector = predecessor on such a path (Dijkstra)',
         'user delay/duration rules return values >= 0 (possibly infinite); heapq pops a minimal (time, counter) item',
     ]
-    return rep, None
+    return rep, util.native_replayer
